@@ -48,12 +48,16 @@ IMPL = {
     "note.to_shorthand": lambda nm, o: Note(nm, o).to_shorthand(),
     "note.from_shorthand": lambda sh: note_list(Note().from_shorthand(sh)),
     "note.change_octave": lambda nm, o, d: (lambda n: (n.change_octave(d), note_list(n))[1])(Note(nm, o)),
+    # an EXISTING note is set again (the object is reused): from an integer, from a name and octave, from Helmholtz text
+    "note.reset_int": lambda nm, o, i: (lambda n: [int(n), n.octave])(Note(nm, o).from_int(i)),
+    "note.reset_note": lambda nm, o, nm2, o2: (lambda n: (n.set_note(nm2, o2), [n.name, n.octave, int(n)])[1])(Note(nm, o)),
+    "note.reset_sh": lambda nm, o, nm2, o2: (lambda n: [n.name, n.octave])(Note(nm, o).from_shorthand(Note(nm2, o2).to_shorthand())),
     "note.hz": hz_roundtrip,
     "note.copy_indep": copy_indep,
     "note.roundtrips": roundtrips,
     "note.helmholtz": lambda nm, o: (lambda n: [n.name, n.octave])(Note().from_shorthand(Note(nm, o).to_shorthand())),
 }
-NO_MODEL = {"note.hz", "note.copy_indep", "note.roundtrips", "note.helmholtz"}
+NO_MODEL = {"note.reset_int", "note.reset_note", "note.reset_sh", "note.hz", "note.copy_indep", "note.roundtrips", "note.helmholtz"}
 
 def has_model(c):
     return c["fn"] not in NO_MODEL
@@ -72,6 +76,14 @@ def cases(tier, rng):
         yield Case("note.copy_indep", [x, 4], "copy", model=False)
     for i in list(range(-30, 160)):
         yield Case("note.from_int", [i], "from_int")
+    olds = [("C", 4), ("Cb", 4), ("B#", 3), ("Cbb", 5), ("B##", 3), ("F#", 0), ("E#", 2), ("Fb", 6), ("A", 8)]
+    for nm, o in olds:
+        base = 12 * o + NATURAL[nm[0]] + net(nm)
+        for i in sorted({base, base + 12, base - 12, base + 1, 0, 11, 12, 59, 60, 61, 127} & set(range(0, 128))):
+            yield Case("note.reset_int", [nm, o, i], "reset/from_int", model=False)
+        for nm2, o2 in olds:
+            yield Case("note.reset_note", [nm, o, nm2, o2], "reset/set_note", model=False)
+            yield Case("note.reset_sh", [nm, o, nm2, o2], "reset/from_shorthand", model=False)
     pool = [(x, o) for x in names(1) for o in (2, 3, 4, 5)] + [("B#", 3), ("Cb", 4), ("B##", 3), ("Cbb", 5), ("E#", 4), ("Fb", 4)]
     pool = pool[:100]
     for a, ao in pool:
@@ -115,6 +127,18 @@ def oracle(c, obs):
         if obs[2] != [nm, o]:
             return "copying from another note does not reproduce the note"
         return None if obs[3] is True else "setting from the integer value does not reproduce the pitch"
+    if fn == "note.reset_int":
+        if isinstance(obs, Err):
+            return "from_int on an existing note raised"
+        return None if obs[0] == a[2] else "from_int on an existing note does not reproduce the integer"
+    if fn == "note.reset_note":
+        if isinstance(obs, Err):
+            return "set_note on an existing note raised"
+        return None if obs == [a[2], a[3], 12 * a[3] + NATURAL[a[2][0]] + net(a[2])] else "set_note on an existing note does not give that name, octave and pitch"
+    if fn == "note.reset_sh":
+        if isinstance(obs, Err):
+            return "from_shorthand on an existing note raised"
+        return None if obs == [a[2], a[3]] else "Helmholtz text read into an existing note does not give the written name and octave"
     if fn == "note.from_int":
         i = a[0]
         if isinstance(obs, Err):
